@@ -429,6 +429,24 @@ impl Property for C07 {
         }
         out
     }
+    /// libFuzzer input: layout bits, slack per counter, then 1-4 decorated trees
+    fn fuzz_decode(data: &[u8]) -> Option<(&'static str, Case, bool)> {
+        let mut b = engine::Bytes::new(data);
+        let lb = b.u16() as u32;
+        let slack: Vec<u8> = (0..8).map(|_| b.u8()).collect();
+        let n = 1 + b.below(4);
+        let docs: Vec<Node> = (0..n)
+            .map(|_| {
+                let (a, al) = b.pick(&[(25u16, 25u16), (40, 30), (15, 40), (30, 0)]);
+                let script = gdoc::script_from_bytes(&mut b, 16);
+                let t = gdoc::tree_from_bytes(&mut b, 4);
+                gdoc::decorate(&t, &script, a, al, 0)
+            })
+            .collect();
+        let c = Case::Stream { docs, layout: Layout { doc_end: false, ..Layout::from_bits(lb) }, slack };
+        let nt = nontrivial(&c);
+        Some(("fuzz-streams", c, nt))
+    }
     fn generate(ctx: &mut Ctx<Self>) {
         // (a1) small documents, exhaustively, block and flow
         let mut idx = 0u64;
